@@ -83,6 +83,7 @@ struct Kernel
     int next_budget = 1;
     int result_fd = -1;
     std::function<bool(const std::string&)> deadlock_hook;
+    std::function<void()> idle_hook;
     std::string deadlock_oracle = "deadlock";
     std::vector<uint64_t> pct_change_points;
     int64_t pct_low = -1;
@@ -482,6 +483,12 @@ set_deadlock_hook(std::function<bool(const std::string&)> hook)
 }
 
 void
+set_idle_hook(std::function<void()> hook)
+{
+    K.idle_hook = std::move(hook);
+}
+
+void
 set_deadlock_oracle(const char* id)
 {
     K.deadlock_oracle = id;
@@ -793,6 +800,9 @@ reschedule(bool exiting)
                 t->deadline < best)
                 best = t->deadline;
         if (best != UINT64_MAX) {
+            // quiescent instant: every thread is blocked or asleep
+            if (K.idle_hook)
+                K.idle_hook();
             if (best > K.now)
                 K.now = best;
             wake_sleepers();
@@ -1118,6 +1128,7 @@ begin_run(const SchedConfig& cfg)
     K.budgets.clear();
     K.next_budget = 1;
     K.deadlock_hook = nullptr;
+    K.idle_hook = nullptr;
     K.deadlock_oracle = "deadlock";
     K.pct_change_points.clear();
     K.pct_low = -1;
